@@ -49,7 +49,7 @@ def main(tier, seed, replay=None):
     ck = Check("C11", tier, seed)
     ck.assumptions += [
         "A-eof: the initiator's death closes its ends of the connection, so the worker's receiver reads EOF",
-        "A-sigint: SIGINT raises KeyboardInterrupt in the worker's main thread; A-exit: os._exit ends the process; threads started by the pool do not keep the interpreter alive once serve() returns",
+        "A-sigint: SIGINT raises KeyboardInterrupt in the worker's main thread (the initiating process is started with the default SIGINT disposition: a worker that inherits SIG_IGN, e.g. from a background shell job, only has the t1 + t2 bound); A-exit: os._exit ends the process; threads started by the pool do not keep the interpreter alive once serve() returns",
         "A-gil: the receiver thread gets scheduled while other threads compute",
         "real layer: bounds are t1 + t2 + %.0f s slack on a loaded 16-core sandbox" % SLACK,
     ]
@@ -83,7 +83,8 @@ def real_layer(ck, tier, rng):
         out = os.path.join(scratch, "pids%d" % i)
         env = dict(os.environ)
         env["PYTHONPATH"] = REPO_SRC
-        p = subprocess.Popen([sys.executable, helper, out, a, how, str(n), em], env=env, stdout=subprocess.DEVNULL, stderr=subprocess.PIPE)
+        p = subprocess.Popen([sys.executable, helper, out, a, how, str(n), em], env=env, stdout=subprocess.DEVNULL, stderr=subprocess.PIPE,
+                             preexec_fn=lambda: signal.signal(signal.SIGINT, signal.SIG_DFL))   # a background shell job would hand down SIG_IGN
         t0 = time.time()
         while not os.path.exists(out) and time.time() - t0 < 30 and p.poll() is None:
             time.sleep(0.05)
